@@ -235,6 +235,46 @@ def rule_config(ctx):
     ctx.check(ok, "C08.CONFIG", binit.short, "default threshold is a positive integer", "the default junk-recovery threshold is not a positive integer", fi=binit, text="default-threshold")
 
 
+def rule_inbound(ctx):
+    """Every link on which BLOB payloads arrive must run its receive buffer with the junk-recovery threshold disabled:
+    with a threshold, a message longer than it that arrives in more than one read is cut up as junk and never delivered
+    (C02 only promises delivery up to the threshold).  The client side is decided by C08.CONFIG (its BLOB connection);
+    this rule decides the server side, whose connections receive the clients' uploads (newBLOBVector)."""
+    from .c18 import server_handlers
+    p = ctx.p
+    bcls = B.buf_cls(p)
+    TH = "max_buffer_size_before_frontal_cleanup"
+    hs = server_handlers(p)
+    ctx.floor("C08.INBOUND", "server connection handler classes", len(hs), 2)
+    for ci in hs:
+        init = ci.find_method("__init__")
+        sig = p.init_chain_signature(ci)
+
+        def run(it: Interp):
+            o = Obj(ci, {}, label="handler")
+            it.handler = o
+            it.run_function(Fn(init, o), [], {n: Obj(None, label=f"<{n}>") for n in sig.required()})
+            return Const(None)
+
+        paths = explore(p, run, {"inline": lambda fi, node: fi.cls is bcls and fi.name == "__init__", "instantiate": lambda k: k is bcls})
+        ctx.paths_enumerated += len(paths)
+        verdict = None
+        for pa in paths:
+            if pa.outcome != "return":
+                continue
+            bufs = [v for v in pa.interp.handler.attrs.values() if isinstance(v, Obj) and v.cls is bcls]
+            if len(bufs) != 1 or TH not in bufs[0].attrs:
+                verdict = "?"
+                break
+            t = bufs[0].attrs[TH]
+            if not (isinstance(t, Const) and t.v is None):
+                verdict = show(t)
+        if verdict == "?":
+            ctx.undecided("C08.INBOUND", init.short, "the handler's receive buffer or its threshold was not found by abstract construction", fi=init)
+        else:
+            ctx.check(verdict is None, "C08.INBOUND", init.short, "receive buffer constructed with the threshold disabled", f"this connection receives client uploads (newBLOBVector) but its receive buffer keeps the junk-recovery threshold {verdict}: an uploaded BLOB whose message is longer than that and arrives in more than one read is discarded as junk and never reaches the driver", fi=init, text="threshold-enabled", witness="a newBLOBVector of 10 kB read in 1024-byte pieces: 0 messages delivered")
+
+
 def rule_progress(ctx):
     B.check_progress(ctx, "C08.PROGRESS", only_threshold_none=True)
     # a cached scan offset that survives a truncation makes a complete payload invisible: the link stalls for good
@@ -257,6 +297,7 @@ RULES = [
     ("C08.CODEC", rule_codec, "matching base64 pair; producers send base64+size+format of one value; consumers decode once and keep that object"),
     ("C08.NULL", rule_null, "empty/absent payload never reaches b64decode as None"),
     ("C08.PRED", rule_pred, "BLOB rows of the router's delivery truth table"),
+    ("C08.INBOUND", rule_inbound, "server connections (which receive uploads) run their receive buffer with the threshold disabled"),
     ("C08.CONFIG", rule_config, "threshold disabled exactly on the BLOB connection"),
     ("C08.PROGRESS", rule_progress, "framing loop progress on threshold-disabled paths"),
 ]
